@@ -36,4 +36,5 @@ open LoomVerif
 #print axioms Refine4.Counter.store_window
 #print axioms Refine4.Counter.pending_consume
 #print axioms Refine4.Counter.event_order
-#print axioms Refine4.Counter.dropWaker_drops_the_current_arc
+#print axioms Refine4.Counter.dropWaker_drops_the_waker_it_took
+#print axioms Refine4.Counter.dropWaker_run_is_reference_execution
